@@ -2,6 +2,7 @@ package props
 
 import (
 	"fmt"
+	"time"
 
 	vuego "github.com/titpetric/vuego"
 
@@ -42,7 +43,7 @@ type c17Embed struct {
 	Mode string `json:"mode"` // root (struct is the root data) | var (struct is a variable, reached by a path)
 }
 
-var c17EmbedRoots = []string{"A", "*A", "B", "P", "P-nil", "*P-nil", "dotkey"}
+var c17EmbedRoots = []string{"A", "*A", "B", "P", "P-nil", "*P-nil", "dotkey", "typednil"}
 
 func c17NEmbed() int { return len(c17EmbedRoots) * 2 }
 
@@ -95,7 +96,57 @@ func c17ExecDotKey(c c17Case, o *core.Obs) {
 	}
 }
 
+// typednil: typed nil pointers whose types have String / Error methods (with value
+// and with pointer receivers) read through every Get* accessor: none may panic.
+func c17ExecTypedNil(c c17Case, o *core.Obs) {
+	e := *c.Embed
+	vals := map[string]any{"ps": (*TextStringer)(nil), "pt": (*time.Time)(nil), "pe": (*TextError)(nil), "pi": (*Item)(nil), "ok": TextStringer{S: "s"}}
+	o.Evals++
+	o.NT("embed", mustJSON(e))
+	o.Cell("part/embed/typednil/" + e.Mode)
+	var s *vuego.Stack
+	prefix := ""
+	if e.Mode == "root" {
+		s = vuego.NewStack(vals)
+	} else {
+		s = vuego.NewStack(map[string]any{"w": vals})
+		prefix = "w."
+	}
+	for _, name := range sortedKeys(vals) {
+		for _, acc := range []string{"GetString", "GetInt", "GetSlice", "GetMap", "Resolve", "ForEach"} {
+			func() {
+				defer func() {
+					if r := recover(); r != nil {
+						o.Fail(c, "embed/typednil/panic/"+acc, "%s(%q) on %T panicked: %v", acc, prefix+name, vals[name], r)
+					}
+				}()
+				switch acc {
+				case "GetString":
+					got, ok := s.GetString(prefix + name)
+					if name == "ok" && (!ok || got != "s") {
+						o.Fail(c, "embed/typednil/stringer-value-wrong", "GetString(%q) = (%q, %v), want the String() result \"s\"", prefix+name, got, ok)
+					}
+				case "GetInt":
+					s.GetInt(prefix + name)
+				case "GetSlice":
+					s.GetSlice(prefix + name)
+				case "GetMap":
+					s.GetMap(prefix + name)
+				case "Resolve":
+					s.Resolve(prefix + name + ".x")
+				case "ForEach":
+					_ = s.ForEach(prefix+name, func(int, any) error { return nil })
+				}
+			}()
+		}
+	}
+}
+
 func c17ExecEmbed(c c17Case, o *core.Obs) {
+	if c.Embed.Root == "typednil" {
+		c17ExecTypedNil(c, o)
+		return
+	}
 	if c.Embed.Root == "dotkey" {
 		c17ExecDotKey(c, o)
 		return
